@@ -2386,3 +2386,168 @@ func isDryRunOnly(p *Program, g *ssa.Function) bool {
 	}
 	return rec(g, 0)
 }
+
+// checkSameNamedParametersNotCrossed: a persistence helper that hands its own parameters on to a callee whose parameters
+// carry the same names hands each to its namesake. Two same-typed neighbours passed crosswise (nextInternalIndex into
+// nextExternalIndex's place and the other way round) compile, round-trip and are invisible while both hold the same
+// value: the row written for an account then carries the branches' next indices exchanged, and a restarted manager
+// re-issues addresses on one branch and skips indices on the other.
+func checkSameNamedParametersNotCrossed(c *Ctx, rule, pkg string) {
+	p := c.P
+	n := 0
+	for _, fn := range p.FuncsIn(pkg) {
+		for _, ci := range callsOf(fn) {
+			call, ok := ci.(*ssa.Call)
+			if !ok {
+				continue
+			}
+			g := call.Call.StaticCallee()
+			if g == nil || len(g.Params) != len(call.Call.Args) || fnPkgPath(g) != fnPkgPath(fn) {
+				continue
+			}
+			// position -> name of the caller's parameter passed there
+			passed := map[string]string{} // callee param name -> caller param name
+			for i, a := range call.Call.Args {
+				if prm, ok := stripConv(a).(*ssa.Parameter); ok && prm.Parent() == fn {
+					passed[g.Params[i].Name()] = prm.Name()
+				}
+			}
+			if len(passed) < 2 {
+				continue
+			}
+			n++
+			for calleeName, callerName := range passed {
+				if calleeName == callerName {
+					continue
+				}
+				// crossed: X goes where Y is expected and Y goes where X is expected
+				if back, ok := passed[callerName]; ok && back == calleeName && calleeName < callerName {
+					c.Check(rule, "same-named-parameters-not-crossed:"+fn.Name()+"->"+g.Name()+"/"+calleeName+"~"+callerName, call.Pos(), false,
+						fn.Name()+" passes its parameter "+callerName+" as "+g.Name()+"'s "+calleeName+" and its "+calleeName+" as "+callerName+": the two values are stored in each other's place (for the next-index pair: after a restart one branch re-issues addresses already handed out and the other skips indices)")
+				}
+			}
+		}
+	}
+	c.Floor(rule, "calls handing two or more own parameters to a same-package callee", n, 20)
+}
+
+// checkPubPrivSlotsAreTwins: a row that stores a key pair — the cointype keys of a scope, the keys of an account — stores
+// ONE key: the private slot is sealed from the text of an extended key, the public slot from the text of that key's
+// Neuter(). With the private slot sealed from another key of the same type that happens to be at hand (the account key in
+// the cointype slot) every later account is derived from the wrong parent: self-consistent, so nothing in the wallet
+// notices, but a wallet restored from the seed issues other addresses. At every call that hands a pair of freshly sealed
+// blobs to a writer with a ...Pub...Enc... / ...Priv...Enc... parameter pair, the plaintext of the public one is
+// String() of Neuter() of the key whose String() is the plaintext of the private one.
+func checkPubPrivSlotsAreTwins(c *Ctx, rule string) {
+	p := c.P
+	// the extended key whose String() a sealed blob was made from
+	sealedFrom := func(v ssa.Value) ssa.Value {
+		for _, o := range (&Slicer{P: p, KeepExtract: true}).Origins(v) {
+			ex, ok := o.(*ssa.Extract)
+			if !ok || ex.Index != 0 {
+				continue
+			}
+			enc, ok := ex.Tuple.(*ssa.Call)
+			if !ok || calleeShort(&enc.Call) != "Encrypt" || len(enc.Call.Args) == 0 {
+				continue
+			}
+			for _, po := range (&Slicer{P: p}).Origins(enc.Call.Args[len(enc.Call.Args)-1]) {
+				if sc, ok := po.(*ssa.Call); ok && calleeShort(&sc.Call) == "String" && len(sc.Call.Args) > 0 {
+					return stripConv(sc.Call.Args[0])
+				}
+			}
+		}
+		return nil
+	}
+	isPub := func(n string) bool {
+		l := strings.ToLower(n)
+		return strings.Contains(l, "pub") && strings.Contains(l, "enc")
+	}
+	isPriv := func(n string) bool {
+		l := strings.ToLower(n)
+		return strings.Contains(l, "priv") && strings.Contains(l, "enc")
+	}
+	n := 0
+	for _, fn := range p.FuncsIn("waddrmgr") {
+		for _, ci := range callsOf(fn) {
+			call, ok := ci.(*ssa.Call)
+			if !ok {
+				continue
+			}
+			g := call.Call.StaticCallee()
+			if g == nil || fnPkgPath(g) != fnPkgPath(fn) || len(g.Params) != len(call.Call.Args) {
+				continue
+			}
+			var pubArg, privArg ssa.Value
+			for i, prm := range g.Params {
+				if isPub(prm.Name()) {
+					pubArg = call.Call.Args[i]
+				}
+				if isPriv(prm.Name()) {
+					privArg = call.Call.Args[i]
+				}
+			}
+			if pubArg == nil || privArg == nil {
+				continue
+			}
+			pubKey, privKey := sealedFrom(pubArg), sealedFrom(privArg)
+			if pubKey == nil || privKey == nil {
+				continue // blobs read from a row, or no private half: nothing sealed here
+			}
+			n++
+			twin := false
+			for _, o := range (&Slicer{P: p, KeepExtract: true}).Origins(pubKey) {
+				if ex, ok := o.(*ssa.Extract); ok {
+					if nc, ok := ex.Tuple.(*ssa.Call); ok && calleeShort(&nc.Call) == "Neuter" && len(nc.Call.Args) > 0 && stripConv(nc.Call.Args[0]) == privKey {
+						twin = true
+					}
+				}
+			}
+			c.Check(rule, "pub-priv-slots-are-twins:"+fn.Name()+"->"+g.Name(), call.Pos(), twin,
+				fn.Name()+" hands "+g.Name()+" a private blob and a public blob that were not sealed from one key and its Neuter(): the row's private half belongs to another key than its public half — keys derived from it later are not the seed's children for the path the wallet reports")
+		}
+	}
+	c.Floor(rule, "freshly sealed key pairs handed to a row writer", n, 3)
+}
+
+// checkScopeNamespaceCreatedExclusively: registering a key scope creates its namespace and its default account row with
+// both next indices at zero. That must fail for a scope that exists — the bucket creation refusing an existing bucket is
+// what stops it: with create-if-missing an already used scope is silently reset (the database's next indices rewound,
+// the running scoped manager replaced by one with empty caches) and the next requests hand out addresses a second time.
+func checkScopeNamespaceCreatedExclusively(c *Ctx, rule string) {
+	p := c.P
+	n := 0
+	for _, fn := range p.FuncsIn("waddrmgr") {
+		for _, ci := range callsOf(fn) {
+			call, ok := ci.(*ssa.Call)
+			if !ok || !call.Call.IsInvoke() || len(call.Call.Args) != 1 {
+				continue
+			}
+			m := call.Call.Method.Name()
+			if m != "CreateBucket" && m != "CreateBucketIfNotExists" {
+				continue
+			}
+			// keyed by the scope: the key derives from scopeToBytes(...)
+			fromScope := false
+			for _, o := range (&Slicer{P: p, ThroughDeref: true}).Origins(call.Call.Args[0]) {
+				if oc, ok := o.(*ssa.Call); ok && calleeShort(&oc.Call) == "scopeToBytes" {
+					fromScope = true
+				}
+				if al, ok := o.(*ssa.Alloc); ok {
+					for _, st := range storesTo(al) {
+						if oc, ok := stripConv(st.Val).(*ssa.Call); ok && calleeShort(&oc.Call) == "scopeToBytes" {
+							fromScope = true
+						}
+					}
+				}
+			}
+			if !fromScope {
+				continue
+			}
+			n++
+			c.Check(rule, "scope-namespace-created-exclusively:"+fn.Name(), call.Pos(), m == "CreateBucket",
+				fn.Name()+" creates a key scope's namespace with "+m+": registering a scope that already exists no longer fails, its default account row is rewritten with both next indices at zero and the running scoped manager is replaced — the addresses issued so far are issued again")
+		}
+	}
+	c.Floor(rule, "creations of a key scope's namespace bucket", n, 1)
+}
